@@ -191,5 +191,39 @@ func dbgSER(c *Ctx, r *Report) {
 	}
 	l2, _ := c.loadEventsAST(lfd)
 	fmt.Println("LOAD0", seqString(l2))
+	m := c.serModelOf(lfd, true)
+	for _, g := range m.Good {
+		for _, d := range g.Decisions {
+			fmt.Printf("   good decision %s %v hdr=%q nev=%d\n", d.Cond, d.Taken, d.Header, d.NEv)
+		}
+	}
+	for _, b := range m.Bad {
+		d := m.rejecting(b)
+		if d == nil {
+			fmt.Println("   BAD path without a rejecting decision", b.Result)
+			continue
+		}
+		fmt.Printf("   bad path: %s on %s %v hdr=%q\n", b.Result, d.Cond, d.Taken, d.Header)
+	}
+	fs, und := c.readFailures(lfd)
+	for _, u := range und {
+		fmt.Println("   UNDECIDED", u)
+	}
+	for _, f := range fs {
+		fmt.Printf("   fail read at %s: %d paths, nil=%v other=%v\n", f.At, f.Paths, f.Nil, f.Other)
+	}
+	for _, n := range []string{"uvarintFromBuf", "valueFromBuf", "bytesFromBuf"} {
+		_, hd := c.find(n)
+		if hd == nil {
+			continue
+		}
+		fs, und := c.readFailures(hd)
+		for _, u := range und {
+			fmt.Println("   UNDECIDED", n, u)
+		}
+		for _, f := range fs {
+			fmt.Printf("   %s fail read at %s: %d paths, nil=%v other=%v\n", n, f.At, f.Paths, f.Nil, f.Other)
+		}
+	}
 	r.ok("dbg", "x", "")
 }
